@@ -183,7 +183,55 @@ def families : List Family := [
       | 0 => [litT "a", x, litT "b"]
       | 1 => [litT "a ", .emph false [litT "e", x, litT "f"], litT " b"]
       | _ => [x, litT "b"]
-    { blocks := [pa kids] }⟩
+    { blocks := [pa kids] }⟩,
+  -- F15: containers nested in containers (depth 2): outer kind x inner kind x innermost content x indentations x
+  -- marker spacing x leading-tab mode x tab-after-marker mode x inner block first in its item or after a paragraph
+  ⟨[3, 3, 5, 2, 3, 3, 3, 6, 2], fun d =>
+    let oi := [0, 3].getD (dg d 3) 0
+    let ii := [0, 1, 3].getD (dg d 4) 0
+    let sp := [0, 1, 3].getD (dg d 5) 0
+    let innermost : List Block := match dg d 2 with
+      | 0 => [ps "foo"]
+      | 1 => [.icode [sb "code", sb "  more"]]
+      | 2 => [.fcode {} false 0 0 0 [] 0 [sb "f1", [], sb " f2"]]
+      | 3 => [.para {} [litT "p1", .softBreak, litT "p2"] 2]
+      | _ => [ps "a", .icode [sb " code"]]
+    let icodeFirst := dg d 2 == 1
+    let itemKids : List Block := if icodeFirst then ps "k" :: innermost else innermost ++ [ps "k"]
+    let inner : Block := match dg d 1 with
+      | 0 => .quote { indent := ii } false (innermost ++ [ps "x"])
+      | 1 => .blist { indent := ii } 0 sp false [.item itemKids, .item [ps "b"]]
+      | _ => .olist { indent := ii } 9 0 (dg d 0 == 1) sp false [.item itemKids, .item [ps "b"]]
+    let first := dg d 8 == 0
+    let outerKids : List Block := if first then [inner, ps "y"] else [ps "o", inner]
+    let outer : Block := match dg d 0 with
+      | 0 => .quote { indent := oi } false outerKids
+      | 1 => .blist { indent := oi } 2 sp false [.item outerKids, .item [ps "q"]]
+      | _ => .olist { indent := oi } 1 0 false sp false [.item outerKids, .item [ps "q"]]
+    let tq := [1, 2, 0, 0, 1, 2].getD (dg d 7) 0
+    let tl := [0, 0, 1, 2, 1, 2].getD (dg d 7) 0
+    { blocks := [outer], tabMode := dg d 6, tabQuote := tq, tabQuoteD := tq, tabList := tl }⟩,
+  -- F16: block quote x child kind x tab after the marker
+  ⟨[13, 2, 4, 4, 2], fun d =>
+    let child := sampleBlock (dg d 0) { indent := dg d 3 }
+    { blocks := [.quote { indent := dg d 2 } (dg d 1 == 1) [child, ps "after"]], tabQuote := 1 + dg d 4, tabQuoteD := 1 + dg d 4 }⟩,
+  -- F17: lists x tab after the marker
+  ⟨[3, 4, 4, 2, 8, 2], fun d =>
+    let tight := dg d 3 == 1
+    let items : List Block := match dg d 4 with
+      | 0 => [.item [ps "a"], .item [ps "b"]]
+      | 1 => [.item [ps "a", ps "b"]]
+      | 2 => [.item [ps "a", .blist { indent := 1 } 0 0 true [.item [ps "n1"], .item [ps "n2"]]], .item [ps "b"]]
+      | 3 => [.item [.fcode {} false 0 0 0 [] 0 [sb "c", [], sb "  d"]], .item [ps "b"]]
+      | 4 => [.item [ps "a", .icode [sb "c", sb " d"]], .item [ps "b"]]
+      | 5 => [.item [.quote {} false [ps "q", .icode [sb "c"]]], .item [ps "c"]]
+      | 6 => [.item [.blist {} 1 (dg d 1) true [.item [ps "n"]], ps "t"], .item [ps "b"]]
+      | _ => [.item [.heading {} 2 false 0 0 [litT "h"], ps "t"], .item [ps "b"]]
+    let l : Block := match dg d 0 with
+      | 0 => .blist { indent := dg d 2 } 0 (dg d 1) tight items
+      | 1 => .olist { indent := dg d 2 } 7 0 false (dg d 1) tight items
+      | _ => .olist { indent := dg d 2 } 10 0 true (dg d 1) tight items
+    { blocks := [l, ps "end"], tabList := 1 + dg d 5 }⟩
 ]
 
 def enumCount : Nat := (families.map fun f => prod f.radices).foldl (· + ·) 0
